@@ -76,7 +76,12 @@ class Potential_Form_Registry(object):
 
   def _build_potential_forms(self, definitions):
     potential_forms = {}
+    # The expression library is case-insensitive: forms 'f' and 'F' could not be told apart inside a formula.
+    lower_labels = set([k.lower() for k in self._potential_forms.keys()])
     for d in definitions:
+      if d.signature.label.lower() in lower_labels and not d.signature.label in potential_forms and not d.signature.label in self._potential_forms:
+        raise Potential_Form_Registry_Exception("Potential form labels are not case-sensitive, the label '{0}' in [Potential-Form] differs from another form's label only in case".format(d.signature.label))
+      lower_labels.add(d.signature.label.lower())
       if d.signature.label in potential_forms:
         raise Potential_Form_Registry_Exception("Two potential forms have the same label in [Potential-Form] section: '{0}'".format(d.signature.label))
       if d.signature.label in self._potential_forms:
